@@ -526,7 +526,68 @@ theorem sinv_run : ∀ (ops : List Op) (s : State), SInv s → s.a.cfg.plen - s.
     obtain ⟨h1, h2⟩ := ih (step s op).1 (sinv_step hI hc op hv.1) (by rw [hcfg]; exact hc) hv.2
     exact ⟨h1, by rw [h2, hcfg]⟩
 
+/-- an Allocate that reports a store error leaves every subscriber's holding exactly as it was -/
+theorem alloc_error_keeps {s : State} (k : Nat) (f : Bool) (herr : (alloc s k f).2 = .error) :
+    ∀ k', AMap.lookup (alloc s k f).1.a.allocated k' = AMap.lookup s.a.allocated k' := by
+  unfold alloc holds at herr ⊢
+  cases hk : AMap.lookup s.a.allocated k with
+  | some i =>
+    have ha : Bitmap.alloc s.a k = (s.a, .okAddr (prefixOf s.a.cfg i)) := by
+      unfold Bitmap.alloc; rw [hk]
+    rw [ha] at herr ⊢
+    simp only [hk, Option.isSome_some, if_true] at herr ⊢
+    cases f with
+    | true => intro k'; rfl
+    | false => simp at herr
+  | none =>
+    cases hf : findFree s.a with
+    | none =>
+      have ha : Bitmap.alloc s.a k = (s.a, .exhausted) := by
+        unfold Bitmap.alloc; rw [hk]; simp only; rw [hf]
+      rw [ha] at herr
+      simp at herr
+    | some i =>
+      have ha : Bitmap.alloc s.a k = (give s.a k i ((i + 1) % 2 ^ 64), .okAddr (prefixOf s.a.cfg i)) := by
+        unfold Bitmap.alloc; rw [hk]; simp only; rw [hf]
+      rw [ha] at herr ⊢
+      simp only [hk, Option.isSome_none, Bool.false_eq_true, if_false] at herr ⊢
+      cases f with
+      | false => simp at herr
+      | true =>
+        simp only [if_true]
+        intro k'
+        show AMap.lookup (Bitmap.release (give s.a k i ((i + 1) % 2 ^ 64)) k).1.allocated k' = _
+        rw [release_lookup]
+        by_cases e : k' = k
+        · subst e; simp [hk]
+        · simp only [e, if_false]
+          show AMap.lookup (AMap.insert s.a.allocated k i) k' = _
+          rw [lookup_insert_ne _ _ e]
+
 end Bng.Dist.Session
+
+namespace Bng.Dist.Pool
+open Bng AMap Bng.Dist.Session
+
+theorem pinv_step {st : State} (hI : SInv st.s) (op : Op) : SInv (step st op).1.s := by
+  cases op with
+  | alloc k f => exact sinv_alloc hI k _
+  | release k f => exact sinv_release hI k f
+  | lookup _ => exact hI
+  | stats => exact hI
+  | foreign a =>
+    simp only [step, foreign]
+    split <;> exact hI
+  | unforeign a => exact hI
+  | rtstore => exact hI
+
+theorem pinv_run : ∀ (ops : List Op) (st : State), SInv st.s → SInv (run st ops).s := by
+  intro ops
+  induction ops with
+  | nil => intro st h; exact h
+  | cons op ops ih => intro st h; exact ih _ (pinv_step h op)
+
+end Bng.Dist.Pool
 
 namespace Bng.Epoch
 open Bng AMap
@@ -715,7 +776,7 @@ structure LInv (s : State) : Prop where
   agree : Agree s
 
 def isLocal : Op → Bool
-  | .alloc _ _ | .release _ _ | .renew _ _ _ | .get _ | .owner _ | .stats => true
+  | .alloc _ _ | .release _ _ | .renew _ _ _ | .get _ | .owner _ | .stats | .remoteDel _ => true
   | _ => false
 
 theorem linv_init (c : Epoch.Cfg) : LInv (init c) :=
@@ -882,7 +943,11 @@ theorem linv_step {s : State} (hI : LInv s) (op : Op) (hl : isLocal op = true) :
   | restart _ => simp [isLocal] at hl
   | tick _ _ => simp [isLocal] at hl
   | remotePut _ _ => simp [isLocal] at hl
-  | remoteDel _ => simp [isLocal] at hl
+  | remoteDel k =>
+    -- a remote delete is a release whose store delete already happened
+    have h : remoteDel s k = (release s k false).1 := by simp [remoteDel, release]
+    show LInv (remoteDel s k)
+    rw [h]; exact linv_release hI k false
 
 theorem linv_run : ∀ (ops : List Op) (s : State), LInv s → (∀ op ∈ ops, isLocal op = true) → LInv (run s ops) := by
   intro ops
